@@ -313,3 +313,105 @@ Qed.
 
 (* host_string determines host and port: distinct (kind-consistent) hosts/ports give
    distinct Host strings is a property of net/url, not modelled; see design notes. *)
+
+(* ---------------------------------------------------------------- *)
+(* the request a sync client sends                                    *)
+
+Lemma split_go_nosep s : forall cur, memb cSLASH s = false -> split_go cur s = [rev cur ++ s].
+Proof.
+  induction s as [|c s IH]; intros cur H; cbn [split_go].
+  - rewrite app_nil_r. reflexivity.
+  - cbn [memb existsb] in H. apply orb_false_iff in H as [H1 H2]. rewrite N.eqb_sym in H1. rewrite H1.
+    rewrite IH by exact H2. cbn [rev]. rewrite <- app_assoc. reflexivity.
+Qed.
+
+Lemma split_go_sep s : forall cur rest,
+  memb cSLASH s = false -> split_go cur (s ++ cSLASH :: rest) = (rev cur ++ s) :: split_go [] rest.
+Proof.
+  induction s as [|c s IH]; intros cur rest H; cbn [split_go app].
+  - rewrite N.eqb_refl, app_nil_r. reflexivity.
+  - cbn [memb existsb] in H. apply orb_false_iff in H as [H1 H2]. rewrite N.eqb_sym in H1. rewrite H1.
+    rewrite IH by exact H2. cbn [rev]. rewrite <- app_assoc. reflexivity.
+Qed.
+
+Lemma normal_seg_parts s :
+  normal_seg s = true -> is_nil s = false /\ is_dot s = false /\ is_dotdot s = false /\ memb cSLASH s = false.
+Proof.
+  unfold normal_seg. intro H. apply andb_prop in H as [H H4]. apply andb_prop in H as [H H3]. apply andb_prop in H as [H1 H2].
+  repeat split; apply negb_true_iff; assumption.
+Qed.
+
+Lemma split_join_tail s segs :
+  forallb normal_seg (s :: segs) = true -> split_go [] (s ++ join_slash segs) = s :: segs.
+Proof.
+  revert s. induction segs as [|s2 segs IH]; intros s H; cbn [forallb] in H; apply andb_prop in H as [Hs Hr].
+  - cbn [join_slash flat_map]. rewrite app_nil_r. apply normal_seg_parts in Hs as (_ & _ & _ & Hm).
+    rewrite split_go_nosep by exact Hm. reflexivity.
+  - cbn [join_slash flat_map app]. apply normal_seg_parts in Hs as (_ & _ & _ & Hm).
+    rewrite split_go_sep by exact Hm. cbn [rev app]. f_equal. apply IH. exact Hr.
+Qed.
+
+Lemma clean_go_normal segs : forall stack,
+  forallb normal_seg segs = true -> clean_go stack segs = rev stack ++ segs.
+Proof.
+  induction segs as [|s segs IH]; intros stack H; cbn [clean_go].
+  - rewrite app_nil_r. reflexivity.
+  - cbn [forallb] in H. apply andb_prop in H as [Hs Hr]. apply normal_seg_parts in Hs as (H1 & H2 & H3 & _).
+    rewrite H1, H2, H3. cbn [orb]. rewrite IH by exact Hr. cbn [rev]. rewrite <- app_assoc. reflexivity.
+Qed.
+
+(* path.Clean leaves a path of normal segments alone *)
+Lemma clean_path_normal s segs :
+  forallb normal_seg (s :: segs) = true -> clean_path (join_slash (s :: segs)) = join_slash (s :: segs).
+Proof.
+  intro H. unfold clean_path, split_slash. cbn [join_slash flat_map app split_go]. rewrite N.eqb_refl. cbn [rev].
+  change (flat_map (fun s0 => cSLASH :: s0) segs) with (join_slash segs).
+  rewrite split_join_tail by exact H.
+  change (clean_go [] ([] :: s :: segs)) with (clean_go [] (s :: segs)).
+  rewrite (clean_go_normal (s :: segs) [] H). reflexivity.
+Qed.
+
+Lemma join_slash_app a b : join_slash (a ++ b) = join_slash a ++ join_slash b.
+Proof. unfold join_slash. apply flat_map_app. Qed.
+
+Definition ipni_segs : list bytes := [[105;112;110;105]; [118;49]; [97;100]].
+Lemma ipni_path_segs : ipni_path = join_slash ipni_segs. Proof. reflexivity. Qed.
+
+(* what the server sees, for every advertised URL: the host of the URL, and the CLEANED
+   concatenation of the advertised path, /ipni/v1/ad and the resource *)
+Theorem sync_request_is_cleaned u rsrc :
+  wf_url u = true ->
+  sync_request u rsrc = Ok (host_string u, clean_path (u_path u ++ ipni_path ++ cSLASH :: rsrc)).
+Proof.
+  intro Hwf. unfold sync_request. pose proof (url_roundtrip_proved u Hwf) as R. unfold roundtrip in R.
+  destruct (from_url u) as [m| |]; cbn [bind] in *; try discriminate. rewrite R. reflexivity.
+Qed.
+
+(* a base path made of normal segments (no repeated or trailing slash, no dot segment; may be
+   empty) is requested exactly: advertised path followed by /ipni/v1/ad/<resource> *)
+Theorem sync_client_requests_advertised_endpoint_proved u rsrc segs :
+  wf_url u = true -> u_path u = join_slash segs -> forallb normal_seg segs = true -> normal_seg rsrc = true ->
+  sync_request u rsrc = Ok (host_string u, u_path u ++ ipni_path ++ cSLASH :: rsrc).
+Proof.
+  intros Hwf Hp Hs Hr. rewrite sync_request_is_cleaned by exact Hwf. f_equal. f_equal.
+  rewrite Hp, ipni_path_segs. replace (cSLASH :: rsrc) with (join_slash [rsrc]) by (cbn [join_slash flat_map]; apply app_nil_r).
+  rewrite <- !join_slash_app.
+  assert (forallb normal_seg (segs ++ ipni_segs ++ [rsrc]) = true) as Hall.
+  { rewrite !forallb_app, Hs. cbn [forallb andb]. rewrite Hr. reflexivity. }
+  destruct (segs ++ ipni_segs ++ [rsrc]) as [|s l] eqn:E.
+  - destruct segs; discriminate.
+  - apply clean_path_normal. exact Hall.
+Qed.
+
+(* the premise is needed: repeated slashes of an advertised base path are not requested *)
+Definition witness_slashes : url :=
+  {| u_scheme := SHttp; u_hkind := HIp4; u_host := [49;50;55;46;48;46;48;46;49]; u_port := Some 8080;
+     u_path := [47;47;97] |}.       (* http://127.0.0.1:8080//a *)
+Theorem sync_client_repeated_slashes_refuted_proved :
+  wf_url witness_slashes = true /\
+  (exists h p, sync_request witness_slashes [104;101;97;100] = Ok (h, p) /\
+               p = [47;97] ++ ipni_path ++ [47;104;101;97;100] /\
+               p <> u_path witness_slashes ++ ipni_path ++ [47;104;101;97;100]).
+Proof.
+  split; [reflexivity|]. eexists. eexists. split; [vm_compute; reflexivity|]. split; [reflexivity|]. vm_compute. discriminate.
+Qed.
